@@ -145,7 +145,7 @@ fn lockstep(n: usize) {
     core::mem::forget(a);
 }
 
-//@ harness: c13_lockstep6 props=C13 tier=thorough class=functional covers=2 mem=16 timeout=2400 est=400
+//@ harness: c13_lockstep6 props=C13 tier=quick class=functional covers=2 mem=16 timeout=2400 est=400
 //@ bounds: every legal lane stream of 6 bytes from the initial decoder state, in lock-step with the reference decoder
 #[kani::proof]
 #[kani::unwind(9)]
